@@ -5,6 +5,7 @@ Pure `ast`.  Nothing is imported from the analysed repository.
 from __future__ import annotations
 import ast
 from .canon import canonicalise
+from .inline import inline_new_helpers
 import hashlib
 import os
 from dataclasses import dataclass, field
@@ -219,6 +220,7 @@ class Program:
         self.classes: Dict[str, ClassInfo] = {}
         self._parent: Dict[int, ast.AST] = {}
         self._owner: Dict[int, FunctionInfo] = {}
+        self.inlined: Dict[str, List[str]] = {}
         self._load()
         self._link_classes()
 
@@ -245,10 +247,32 @@ class Program:
                 tree = ast.parse(src, filename=path)
             except SyntaxError as e:
                 raise AnalysisError(f"cannot parse {path}: {e}")
+            tree, inl = inline_new_helpers(tree, name.replace(PKG + ".", "", 1) if name != PKG else "")
+            if inl:
+                self.inlined[name] = inl
             tree = canonicalise(tree)
             m = Module(name, path, os.path.relpath(path, self.repo), src, tree, is_pkg)
             self.modules[name] = m
         self.digest = h.hexdigest()
+        # a method that was inlined at self.m(...) sites must not be overridden anywhere (the inliner only sees its own module)
+        removed = {n[1:] for names in self.inlined.values() for n in names if n.startswith("-")}
+        if removed:
+            for m_ in self.modules.values():
+                for st_ in ast.walk(m_.tree):
+                    if isinstance(st_, ast.ImportFrom) and any(a.name in removed for a in st_.names):
+                        raise AnalysisError(f"a helper that was inlined and dropped is imported by {m_.name}")
+        inl_methods = {n for names in self.inlined.values() for n in names if not n.startswith("-")}
+        if inl_methods:
+            count: Dict[str, int] = {}
+            for m_ in self.modules.values():
+                for c_ in ast.walk(m_.tree):
+                    if isinstance(c_, ast.ClassDef):
+                        for st_ in c_.body:
+                            if isinstance(st_, (ast.FunctionDef, ast.AsyncFunctionDef)) and st_.name in inl_methods:
+                                count[st_.name] = count.get(st_.name, 0) + 1
+            dup = sorted(n for n, k in count.items() if k > 1)
+            if dup:
+                raise AnalysisError(f"new method(s) {dup} are defined in more than one class: calls through self cannot be resolved by the inliner")
         for m in self.modules.values():
             self._index_module(m)
 
